@@ -14,6 +14,8 @@
 import IoosQc.Theorems.C04
 import IoosQc.Model.Store
 import IoosQc.Model.Fx
+import IoosQc.Model.Defaults
+import IoosQc.Model.Tests
 set_option linter.unusedSimpArgs false
 set_option linter.unusedVariables false
 
@@ -289,5 +291,30 @@ theorem C19_pin_cfSafe_classes (lead keep : List (Nat × Nat)) (pre : List Char)
 
 theorem C20_pin_fxOps (t : List (Char × Pin.PyOp)) (h : Pin.fxOpsOk t = true) (o : BinOp) :
     ∀ e ∈ t, e.1 = Pin.BinOp.symbol o → e.2 = Pin.BinOp.pyOp o := Pin.fxOps_sound t h o
+
+/-! ### Defaults of the signatures (`Model/Defaults.lean` is what the decoder fills in for an omitted keyword) -/
+
+/-- With the source's defaults, a `valid_range_test` call that names neither flag is the lower-inclusive,
+    upper-exclusive test of the property sentence. -/
+theorem C03_pin_defaults (s e : Bool) (h : (s, e) = (Defaults.validStartInclusive, Defaults.validEndInclusive))
+    (lo hi : V) (inp : List V) : validRange lo hi s e inp = validRange lo hi true false inp := by
+  cases h; rfl
+
+theorem C09_pin_default_method (m : String) (h : m = Defaults.spikeMethod) (sus fail : Option Rat) (inp : List V) :
+    spikeTest m sus fail inp = spikeTest "average" sus fail inp := by
+  subst h; rfl
+
+theorem C11_pin_default_tolerance (tol : Rat) (h : tol = Defaults.flatTolerance) (inp : List V) (ts : List Int) (sus fail : Rat) :
+    flatLineTest inp ts sus fail tol = flatLineTest inp ts sus fail 0 := by
+  subst h; rfl
+
+theorem C12_pin_default_check_type (c : String) (h : c = Defaults.attenCheckType) (inp : List V) (ts : List Int) (sus fail : Rat)
+    (period : Option Rat) (minObs : Option Nat) (minPeriod : Option Rat) :
+    attenuatedTest c inp ts sus fail period minObs minPeriod = attenuatedTest "std" inp ts sus fail period minObs minPeriod := by
+  subst h; rfl
+
+theorem C14_pin_default_bbox (b : List Rat) (h : b = Defaults.locationBBox) (lon lat : List V) (r : Option Rat) (hops : List V) :
+    locationTest lon lat ⟨true, b⟩ r hops = locationTest lon lat ⟨true, [-180, -90, 180, 90]⟩ r hops := by
+  subst h; rfl
 
 end IoosQc
